@@ -16,7 +16,7 @@ from typing import List
 from fjv import engines
 from fjv.arena import Arena, Block
 from fjv.core import Check, MachineryFailure
-from fjv.stl_common import compare, oracle, run_behaviours
+from fjv.stl_common import assemble_blaming, compare, oracle, run_behaviours
 
 VARS = ["x", "y", "z", "t", "u"]
 ND = 18
@@ -48,7 +48,7 @@ def hex_blocks(rng: random.Random, sizes: List[int], w: int, big_divs=((10, 2),)
         add("add", "hex.add {n}, {v0}, {v1}", 2, n)
         add("sub", "hex.sub {n}, {v0}, {v1}", 2, n)
         add("add_constant", "hex.add_constant {n}, {v0}, {c}", 1, n, c=rng.choice([0, 1, 15, 16, 0x100, rng.randrange(top)]) % top)
-        add("sub_constant", "hex.sub_constant {n}, {v0}, {c}", 1, n, c=rng.choice([1, 15, 16, 0x100, rng.randrange(1, top)]) % top or 1)
+        add("sub_constant", "hex.sub_constant {n}, {v0}, {c}", 1, n, c=rng.choice([0, 1, 15, 16, 0x100, rng.randrange(1, top)]) % top)
         add("shl_bit", "hex.shl_bit {n}, {v0}", 1, n)
         add("shr_bit", "hex.shr_bit {n}, {v0}", 1, n)
         add("shl", "hex.shl_hex {n}, {v0}", 1, n, sh=1, name="hex.shl_hex(2)")
@@ -152,9 +152,8 @@ def gen_behaviours(rng: random.Random, blocks: List[Block], count: int, maxlen: 
 
 def run_width(chk: Check, fjm_run, w: int, sizes: List[int], nbeh: int, maxlen: int, rng: random.Random, engine: str = "native-flat", npairs: int = 0):
     blocks = hex_blocks(rng, sizes, w)
-    arena = Arena(fjm_run, w, "hex", VARS, ND, blocks, engine=engine)
+    arena, blocks = assemble_blaming(chk, lambda bl: Arena(fjm_run, w, "hex", VARS, ND, bl, engine=engine), blocks, f"hex w={w}")
     try:
-        arena.assemble()
         behs = gen_behaviours(rng, blocks, nbeh, maxlen) + all_pairs(rng, blocks, npairs)
         expected = oracle(chk, 16, VARS, blocks, behs, f"StlSem[hex w={w}]")
         results, broken = run_behaviours(arena, behs)
